@@ -1,6 +1,6 @@
 (* C13 - Mapping aggregation preserves the address-space picture.   Property theorems only. *)
 From Coq Require Import List NArith.
-From MDW Require Import Maps MapsProofs MapsProofs2 MapsJudge MapsJudgeProofs.
+From MDW Require Import Maps MapsProofs MapsProofs2 MapsJudge MapsJudgeProofs MapsComplete.
 Import ListNotations.
 Local Open Scope N_scope.
 
@@ -46,6 +46,14 @@ Theorem C13_judge_covers : forall gate ms ls l,
   exists m, In m ms /\ m_start m <= l_start l /\ l_end l <= m_end m.
 Proof. exact judge_covers. Qed.
 Print Assumptions C13_judge_covers.
+
+(* Conversely the predicate never rejects a correct aggregation: for every well-formed memory map, of any length,
+   it accepts the list the model computes (so on the unchanged code a rejection cannot be a false alarm of the
+   predicate itself). *)
+Theorem C13_judge_complete : forall gate lo ls,
+  sorted_from lo ls -> c13_holds_b gate ls (aggregate gate ls) = true.
+Proof. exact judge_complete. Qed.
+Print Assumptions C13_judge_complete.
 
 (* hypotheses are satisfiable, and a merge actually happens *)
 Example C13_nonvacuous :
